@@ -762,6 +762,32 @@ func c05Run(r *core.Run, idx int, rng *rand.Rand) {
 		}
 		c.Labels = append(c.Labels, "primed")
 	}
+	// now and then the judged request is preceded by refused, unsigned messages whose DEFLATE stream breaks off behind
+	// a complete AuthnRequest that names the same service provider but was never signed by anybody: nothing of a
+	// refused message may be what the provider acts on afterwards
+	if idx%7 == 3 {
+		for k := 0; k < 1+rng.Intn(3); k++ {
+			f := validAuthn(rng, c.A)
+			f.ID = "forged-leftover-" + randHex(rng, 6)
+			f.ProviderName = "Never signed"
+			doc := f.XML(rng)
+			if rng.Intn(3) == 0 {
+				doc += strings.Repeat(" ", 1000+rng.Intn(100000))
+			}
+			payload := spsim.B64(spsim.DeflateUnfinished([]byte(doc)))
+			path := []string{env.PathSSO, env.PathSSO, env.PathSLO}[rng.Intn(3)]
+			var pc *env.Call
+			if rng.Intn(2) == 0 {
+				pc = e.Do(env.Req{Path: path, Query: "SAMLRequest=" + url.QueryEscape(payload) + "&RelayState=leftover"})
+			} else {
+				pc = e.Do(env.Req{Method: "POST", Path: path, Body: spsim.FormBody("SAMLRequest", payload, "SAMLEncoding", spsim.EncDeflate, "RelayState", "leftover")})
+			}
+			if pc.Panic == "" && !pc.Accepted() {
+				r.Count("preceded_by_refused_broken_stream", 1)
+			}
+		}
+		c.Labels = append(c.Labels, "after_refused_broken_stream")
+	}
 	// now and then the key storage fails while the request is served: whatever the handler falls back to, the
 	// signing requirement stays in force (refusing the request is of course fine)
 	if idx%9 == 5 {
